@@ -85,7 +85,9 @@ impl<'a> GenWork<'a> {
         // add preds 
         script_gen.make_where_clause().predicates.extend(preds);
         
-        let phantom_data =  ModelPhantomData::from( &self.actor_gen_set);
+        // declaration order, so that the expansion is deterministic
+        let phantom_params = private_gen.params.iter().cloned().collect::<Vec<_>>();
+        let phantom_data =  ModelPhantomData::from( &phantom_params );
 
 
         // add model bounds
